@@ -5,6 +5,8 @@ import json
 import os
 
 ROOT = os.path.dirname(os.path.dirname(os.path.abspath(__file__)))
+# development runs against a scratch copy of the library (PYTHONPATH) write elsewhere; manifest commands never set this
+OUT_ROOT = os.environ.get("VERIF_DEV_DIR", ROOT)
 
 
 def write(prop, tier, seed, outcome, n_new, n_known):
@@ -24,6 +26,6 @@ def write(prop, tier, seed, outcome, n_new, n_known):
         "violations": n_new,
         "known_findings_matched": n_known,
     }
-    os.makedirs(os.path.join(ROOT, "evidence"), exist_ok=True)
-    with open(os.path.join(ROOT, "evidence", f"{prop}.json"), "w") as f:
+    os.makedirs(os.path.join(OUT_ROOT, "evidence"), exist_ok=True)
+    with open(os.path.join(OUT_ROOT, "evidence", f"{prop}.json"), "w") as f:
         json.dump(doc, f, indent=1, default=str)
